@@ -22,7 +22,7 @@ def main (args : List String) : IO UInt32 := do
   let stdin ← IO.getStdin
   match args with
   | ["c01"] | ["c03"] => Driver.C01.main stdin; return 0
-  | ["c02"] => Driver.C02.main stdin; return 0
+  | ["c02"] => Driver.C02.main "c02" stdin; return 0
   | ["c04"] => Driver.C04.main stdin; return 0
   | ["c05"] => Driver.C05.main stdin; return 0
   | ["c06"] => Driver.C06.main stdin; return 0
